@@ -8,6 +8,7 @@ import (
 	"strconv"
 	"strings"
 	"sync"
+	"sync/atomic"
 	"testing"
 	"time"
 
@@ -16,6 +17,8 @@ import (
 	"pgregory.net/rapid"
 
 	"verif/harness/evid"
+	"verif/harness/mint"
+	"verif/harness/ref/der"
 	"verif/harness/refcheck"
 	"verif/harness/sim/dns"
 	"verif/harness/sim/kdc"
@@ -36,6 +39,7 @@ type Case struct {
 	Names string `json:"names,omitempty"`      // the kdc lines name hosts instead of addresses: "single" = each name has one address, "multi" = two dead addresses in front of the real one
 	List  []int  `json:"kdc_lines,omitempty"`  // the realm's kdc lines in order, as indices into kdcs (a host may be listed more than once); empty = each once
 	Try   int    `json:"try,omitempty"`        // n-th try of the same assignment (the library shuffles the KDC list)
+	Size  int    `json:"reply_size,omitempty"` // the KDC's AS-REP is exactly this many octets long (authorization data of that size in the ticket, as PACs make them)
 }
 
 var udpBeh = []kdc.Behaviour{kdc.Answers, kdc.Refuses, kdc.ClosesEarly, kdc.Silent, kdc.AnswersErr, kdc.TooBig}
@@ -179,6 +183,8 @@ func Expected(c Case) map[string]bool {
 	return exp
 }
 
+var sizeMiss atomic.Int64 // a sized reply (Case.Size) that came out at another length: the harness's fault
+
 // Eval runs one login under the fault assignment.
 func Eval(c Case) evid.Verdict {
 	return evid.SafeEval(func() evid.Verdict {
@@ -191,6 +197,35 @@ func Eval(c Case) evid.Verdict {
 		}
 		r := w.AddRealm(realm, kdc.Policy{})
 		r.AddClient("alice", "password1", nil, 0)
+		if c.Size > 0 {
+			r.Mutate = func(x *kdc.ReplyCtx) {
+				if x.Kind != "AS" {
+					return
+				}
+				base := append([]mint.AD{}, x.Ticket.AuthData...)
+				pad := 0
+				for i := 0; i < 12; i++ {
+					x.Ticket.AuthData = append(append([]mint.AD{}, base...), mint.AD{Type: 1, Data: der.AuthData.MustEncode([]any{der.M{"ad-type": int64(99), "ad-data": make([]byte, pad)}})})
+					rep := der.M{}
+					for k, v := range x.Rep {
+						rep[k] = v
+					}
+					rep["ticket"] = x.Ticket.Value()
+					rep["enc-part"] = mint.EncData(x.ReplyKey, x.Usage, x.EncApp.MustEncode(x.Enc), make([]byte, 16), nil)
+					n := len(x.RepType.MustEncode(rep))
+					if n == c.Size {
+						break
+					}
+					pad = max(0, pad+c.Size-n)
+				}
+				x.Post = func(b []byte) []byte {
+					if len(b) != c.Size {
+						sizeMiss.Store(int64(len(b)))
+					}
+					return b
+				}
+			}
+		}
 		var servers []*kdc.Server
 		var addrs []string
 		code := c.Code
@@ -284,6 +319,9 @@ func Eval(c Case) evid.Verdict {
 		cl := client.NewWithPassword("alice", realm, "password1", cfg, client.DisablePAFXFAST(true))
 		defer cl.Destroy()
 		if v := exchange(c, cl, &servers, ""); !v.OK || len(c.Then) == 0 {
+			if n := sizeMiss.Swap(0); c.Size > 0 && n != 0 {
+				return evid.Fail("harness", "the simulated KDC's reply was %d octets, not the %d asked for", n, c.Size)
+			}
 			return v
 		}
 		// the endpoints change their behaviour; the same client tries again
@@ -578,7 +616,17 @@ func TestProp(t *testing.T) {
 			}
 		}
 	}
-	r.Rule("enum (continued): TCP endpoints also cut the reply inside its body or inside its length header; the KRB-ERROR code runs through every code 1..93 except 24, 25, 52 and 68, on a single KDC and again on one of two KDCs while the other refuses or closes early (both list orders, three tries); kdc lines naming hosts that resolve (through an in-process DNS responder) to one address or to two dead addresses followed by the real one; a further kdc line naming a host that does not resolve; no kdc lines at all but dns_lookup_kdc with _kerberos._udp and _kerberos._tcp service records, or _tcp records only; hosts listed on several kdc lines (a faulty host two to four times around one working host, three tries each because the library shuffles the list); two-exchange cases: one client logs in twice while the endpoints change behaviour in between (7 x 7 single-KDC phases x 3 limits, and a slice with the working KDC moving from the first to the second host)")
+	// replies of a given size over UDP (tickets carrying authorization data, as PACs make them): up to the 4096 octets a KDC sends
+	// in a datagram the reply is complete and has to be taken
+	for _, size := range []int{1400, 1465, 1466, 1500, 2048, 3000, 4095, 4096} {
+		for li, l := range []string{"large", "small"} {
+			add(Case{EPs: []EP{{kdc.Answers, kdc.Refuses}}, Limit: l, Size: size})
+			if li == 0 {
+				add(Case{EPs: []EP{{kdc.Answers, kdc.Answers}}, Limit: l, Size: size})
+			}
+		}
+	}
+	r.Rule("enum (continued): TCP endpoints also cut the reply inside its body or inside its length header; the KRB-ERROR code runs through every code 1..93 except 24, 25, 52 and 68, on a single KDC and again on one of two KDCs while the other refuses or closes early (both list orders, three tries); kdc lines naming hosts that resolve (through an in-process DNS responder) to one address or to two dead addresses followed by the real one; a further kdc line naming a host that does not resolve; AS-REPs of exactly 1400..4096 octets over UDP; no kdc lines at all but dns_lookup_kdc with _kerberos._udp and _kerberos._tcp service records, or _tcp records only; hosts listed on several kdc lines (a faulty host two to four times around one working host, three tries each because the library shuffles the list); two-exchange cases: one client logs in twice while the endpoints change behaviour in between (7 x 7 single-KDC phases x 3 limits, and a slice with the working KDC moving from the first to the second host)")
 	var mu sync.Mutex
 	var retry []Case
 	seenKey := map[string]bool{}
